@@ -42,6 +42,17 @@ func (c *ContextManager) DestroyTransactionalContext() {
 	c.adminContext.DestroyTransactionalContext()
 }
 
+// NewExecutionContext returns the context of one execution of a flow: the global and the
+// flow context are the shared ones, the transactional context is a fresh one that belongs
+// to this execution alone, so concurrent transactions of a flow cannot see or clear each
+// other's transactional state.
+func (c *ContextManager) NewExecutionContext() LunarAdminContextI {
+	executionContext := NewLunarContext(c.globalContext)
+	executionContext.SetFlowContext(c.adminContext.GetFlowContext())
+	executionContext.InitiateTransactionalContext()
+	return executionContext
+}
+
 // GetLunarContext returns the lunar context
 func (c *ContextManager) GetLunarContext() LunarAdminContextI {
 	return c.adminContext
